@@ -152,6 +152,61 @@ def _params(model):
     raise KeyError(model)
 
 
+# declared bounds of the pinned tree (typed from the model classes). The quantifier is "any parameters inside its declared
+# bounds": where the library under test declares MORE than this table, half of the draws of that parameter are moved into
+# the newly declared region (mirror image below a lower bound that moved down, beyond an upper bound that moved up), so that
+# the clauses are asked of what the library now says it accepts. With the pinned bounds the strategies are exactly _params.
+_INF = math.inf
+_DECLARED = {
+    "Henry": {"K": (0, _INF)}, "Langmuir": {"K": (0, _INF), "n_m": (0, _INF)},
+    "DSLangmuir": {k: (0, _INF) for k in ("n_m1", "K1", "n_m2", "K2")},
+    "TSLangmuir": {k: (0, _INF) for k in ("n_m1", "n_m2", "n_m3", "K1", "K2", "K3")},
+    "BET": {"n_m": (0, _INF), "C": (0, _INF), "N": (0, 1)}, "GAB": {"n_m": (0, _INF), "C": (0, _INF), "K": (0, 1)},
+    "Freundlich": {"K": (0, _INF), "m": (0, _INF)}, "DA": {"n_m": (0, _INF), "e": (0, _INF), "m": (1, 3)},
+    "DR": {"n_m": (0, _INF), "e": (0, _INF)}, "Quadratic": {"n_m": (0, _INF), "Ka": (-_INF, _INF), "Kb": (-_INF, _INF)},
+    "TemkinApprox": {"n_m": (0, _INF), "K": (0, _INF), "tht": (0, _INF)},
+    "Virial": {"K": (0, _INF), "A": (-_INF, _INF), "B": (-_INF, _INF), "C": (-_INF, _INF)},
+    "Toth": {"n_m": (0, _INF), "K": (0, _INF), "t": (0, _INF)},
+    "JensenSeaton": {k: (0, _INF) for k in ("K", "a", "b", "c")},
+    "FHVST": {"n_m": (0, _INF), "K": (0, _INF), "a1v": (-_INF, _INF)},
+    "WVST": {"n_m": (0, _INF), "K": (0, _INF), "L1v": (-_INF, _INF), "Lv1": (-_INF, _INF)},
+}
+
+
+def _widened(model):
+    """{parameter: 'lo' | 'hi'} for the bounds the library under test declares wider than the pinned table."""
+    m = get_isotherm_model(model)
+    out = {}
+    for name, (lo, hi) in zip(m.param_names, m.param_default_bounds):
+        plo, phi = _DECLARED[model][name]
+        if float(lo) < plo:
+            out[name] = ("lo", float(lo), plo)
+        elif float(hi) > phi:
+            out[name] = ("hi", float(hi), phi)
+    return out
+
+
+def _params_declared(model):
+    base = _params(model)
+    wide = _widened(model)
+    if not wide:
+        return base
+
+    def move(P, which, on):
+        name = sorted(wide)[which % len(wide)]
+        if not on:
+            return P
+        side, now, pinned = wide[name]
+        v = float(P[name])
+        P = dict(P)
+        if side == "lo":
+            P[name] = max(now, 2.0 * pinned - v) if v != pinned else pinned - 1.0  # mirror image below the old bound
+        else:
+            P[name] = min(now, pinned + abs(v)) if math.isfinite(pinned) else v
+        return P
+    return st.builds(move, base, st.integers(0, 7), st.booleans())
+
+
 _WINDOW_EDGES = {
     # parameter -> values that are edges of the generation window (a vector touching one is not counted non-trivial)
     "tht": (0.0, 3.0), "m_DA": (1.0, 3.0), "a1v": (-0.9, 5.0), "Ka": (0.0,),
@@ -181,7 +236,7 @@ def strat_case(models, max_len=40):
             _STRAT_CACHE[key] = st.builds(
                 lambda P, v, zero, T: {"model": model, "params": P, "v": v, "zero": zero,
                                        "T": T if model in ("DR", "DA") else None},
-                _params(model), st.lists(st.floats(0.0, 1.0), min_size=1, max_size=max_len), st.booleans(),
+                _params_declared(model), st.lists(st.floats(0.0, 1.0), min_size=1, max_size=max_len), st.booleans(),
                 _temperature())
         return _STRAT_CACHE[key]
     return st.one_of([one(m) for m in models])
@@ -331,7 +386,7 @@ def henry_abscissa(model, P):
     if model == "Quadratic":
         return d / (P["Ka"] + 2.0 * P["Kb"] / P["Ka"])
     if model == "TemkinApprox":
-        return d / (P["K"] * (1.0 + P["tht"]))
+        return d / (P["K"] * (1.0 + abs(P["tht"])))
     if model == "Toth":
         # n/(n_m K p) = (1 + (Kp)^t)^(-1/t) ~ 1 - (Kp)^t / t
         return (d * P["t"]) ** (1.0 / P["t"]) / P["K"]
